@@ -363,3 +363,86 @@ def retry_sequence(j: int, c0: int, c1: int, c2: int) -> str:
 scn.register(globals(), {"C07", "C02", "C03"}, ["par_retry", "par_catch"],
              {"par_retry": [("_f%d_s%d" % (f, s), "nfail == %d and sib == %d" % (f, s)) for f in (0, 1, 2) for s in (0, 1)],
               "par_catch": [("_s0_a", "sib == 0 and fa and not fb")]})
+
+
+# ---------------------------------------------------------------------------
+# S2: a chain of retried states - the retry budget is per state (no leak of RetryCount /
+# RetryTimeout from one state to the next, through success and through Catch)
+# ---------------------------------------------------------------------------
+def _retry_chain(which, j1: int, j2: int, m: int, via_catch: bool, c0: int, c1: int, c2: int):
+    from vf import s2
+    m = pick([0, 1, 2], m)
+    retry = [{"ErrorEquals": ["Boom"], "IntervalSeconds": 1, "MaxAttempts": m, "BackoffRate": 2.0}]
+    t1 = scn.task("f1", ResultPath="$.t1", Next="T2", Retry=retry)
+    if via_catch:
+        t1["Catch"] = [{"ErrorEquals": ["States.ALL"], "ResultPath": "$.t1", "Next": "T2"}]
+    t2 = scn.task("f2", ResultPath="$.t2", End=True, Retry=retry)
+    asl = {"StartAt": "T1", "States": {"T1": t1, "T2": t2}}
+    n1 = [0]; n2 = [0]; times1 = []; times2 = []
+
+    def w1(req):
+        n1[0] += 1
+        times1.append(stubs.CLOCK.now - 1_700_000_000.0)
+        if n1[0] <= j1:
+            return {"errorType": "Boom", "errorMessage": "a"}
+        return {"ok": 1}
+
+    def w2(req):
+        n2[0] += 1
+        times2.append(stubs.CLOCK.now - 1_700_000_000.0)
+        if n2[0] <= j2:
+            return {"errorType": "Boom", "errorMessage": "b"}
+        return {"ok": 2}
+    sched = [0.0, 1.0, 3.0]
+    t1_ok = j1 <= m
+    att1 = min(j1, m) + 1
+    t2_runs = t1_ok or via_catch
+    att2 = (min(j2, m) + 1) if t2_runs else 0
+    t2_ok = t2_runs and j2 <= m
+
+    def chk(run, inst, mon):
+        if times1 != sched[:att1]:
+            return "C07 first task requested at %s, expected %s" % (times1, sched[:att1])
+        base_t = sched[att1 - 1]
+        want2 = [base_t + s for s in sched[:att2]]
+        if times2 != want2:
+            return "C07 second task requested at %s, expected %s (retry budget/delay of the first state leaked?)" % (times2, want2)
+        return ""
+    if t2_ok:
+        got1 = {"ok": 1} if t1_ok else None
+        expect = None
+    else:
+        expect = ("FAILED", "Boom")
+
+    def chk2(run, inst, mon):
+        r = chk(run, inst, mon)
+        if r:
+            return r
+        if t2_ok:
+            got = s2.result_of()
+            if got[0] != "SUCCEEDED" or got[1].get("t2") != {"ok": 2} or got[1].get("x") != 1:
+                return "outcome %r" % (got,)
+            if t1_ok and got[1].get("t1") != {"ok": 1}:
+                return "outcome %r" % (got,)
+            if not t1_ok and (got[1].get("t1") or {}).get("Error") != "Boom":
+                return "C07 caught error output missing: %r" % (got,)
+        return ""
+    return s2.run_scenario(asl, {"x": 1}, [c0, c1, c2], {"f1": w1, "f2": w2}, which, "STANDARD", expect, extra_check=chk2, max_steps=160)
+
+
+def _make_chain(m, vc):
+    @condition(timeout={"quick": 300, "thorough": 900}, functions=scn.ENGINE_FUNCS,
+               outside=["chains longer than two retried states", "MaxAttempts above 2 in the chain scenario"])
+    def retry_chain(j1: int, j2: int, c0: int, c1: int, c2: int) -> str:
+        """
+        requires: 0 <= j1 <= 3 and 0 <= j2 <= 3
+        ensures: _ == ""
+        """
+        return _retry_chain({"C07", "C02", "C03", "C09"}, j1, j2, m, vc, c0, c1, c2)
+    retry_chain.__name__ = retry_chain.__qualname__ = "retry_chain_m%d%s" % (m, "_catch" if vc else "")
+    globals()[retry_chain.__name__] = retry_chain
+
+
+for _m in (0, 1, 2):
+    for _vc in (False, True):
+        _make_chain(_m, _vc)
